@@ -145,3 +145,15 @@ Proof.
   intros s Hs Hb. revert s Hs. induction xs as [|x t IH]; intros s Hs; cbn [range_loop]; [exact Hs|].
   specialize (Hb x s Hs). destruct (body x s); [apply IH; exact Hb|exact Hb|exact Hb].
 Qed.
+
+(* a loop whose body never leaves it (no break, no return) is the left fold of its state *)
+Definition lnext {S R : Type} (d : S) (r : lstep S R) : S :=
+  match r with LNext s => s | LBreak s => s | LRet _ => d end.
+
+Lemma range_loop_noexit {A S R} (body : A -> S -> lstep S R) xs : forall s,
+  (forall x s, exists s', body x s = LNext s') ->
+  range_loop body xs s = LDone (fold_left (fun s x => lnext s (body x s)) xs s).
+Proof.
+  intros s Hb. revert s. induction xs as [|x t IH]; intro s; cbn [range_loop fold_left]; [reflexivity|].
+  destruct (Hb x s) as [s' E]. rewrite E. cbn [lnext]. apply IH.
+Qed.
